@@ -18,6 +18,15 @@ META = {
 # in prefix or indent indexes outside it and MarshalJSONIndent panics instead of returning its documented error.
 PROPOSED_KNOWN = [
     {"kind": "known",
+     "signature": {"fam": "builtins", "fn": "Capitalize", "cause": "hostpanic", "detail": "invalid-utf8-input"},
+     "what": "builtin.Capitalize panics (slice bounds out of range) when the first non-separator is an invalid UTF-8 byte within 2 bytes of the end: it skips utf8.RuneLen(upper-cased rune) = 3 bytes instead of the 1 byte read"},
+    {"kind": "known",
+     "signature": {"fam": "builtins", "fn": "Capitalize", "cause": "wrong-result", "detail": "invalid-utf8-input"},
+     "what": "builtin.Capitalize drops or garbles the bytes after an invalid UTF-8 byte that is the first non-separator (skips 3 bytes instead of 1)"},
+    {"kind": "known",
+     "signature": {"fam": "builtins", "fn": "Capitalize", "cause": "wrong-result", "detail": "non-ascii-input"},
+     "what": "builtin.Capitalize corrupts the text after the capitalised letter when its upper case has another UTF-8 width (dotless i U+0131 -> I, U+0250 -> U+2C6F): it skips the width of the upper-cased rune, not of the original"},
+    {"kind": "known",
      "signature": {"fam": "builtins", "fn": "MarshalJSONIndent", "cause": "hostpanic", "detail": "byte-255-in-prefix-or-indent"},
      "what": "builtin.MarshalJSONIndent panics (index out of range [255] with length 255: lookupJSONSpace is [255]uint8) instead of returning its documented error when prefix or indent contains byte 0xFF"},
 ]
@@ -34,38 +43,51 @@ def table_size():
 
 
 def table_model(ctx):
-    """Diagnostic model check of lookupJSONSpace/onlyJSONWhitespace/trimJSONSpace as transcribed (never a verdict)."""
+    """Diagnostic model check of lookupJSONSpace/onlyJSONWhitespace/trimJSONSpace as transcribed (never a verdict), for
+    the table size found in the source and for the proposed [256]uint8, in one TLC run (-continue: all counterexamples)."""
     size = table_size()
-    out = {"table_size_in_source": size}
-    runs = [("as_written", size or 256, "TableOnlyWS"), ("as_written_trim", size or 256, "TableTrim")]
-    if size != 256:
-        runs.append(("proposed_fix_256", 256, "TableOnlyWS"))
-    for name, sz, inv in runs:
-        wd = ctx.stage("mc_table_" + name, FAMS)
-        rig.write_cfg(wd / "MC_Builtins.cfg", constants={"Deep": False, "Part": "table", "TableSize": sz, "TableLen": ctx.pick(1, 2)},
-                      invariants=[inv])
-        r = ctx.tlc(wd, "MC_Builtins", workers=rig.NCPU, timeout=600)
-        if not r.ok and not r.invariant_violated:
-            raise rig.Infra(f"table model run {name} failed: {wd}/MC_Builtins.out\n" + rig.tail(r.out, 25))
-        out[name] = {"table_size": sz, "invariant": inv, "holds": r.ok, "states": r.distinct, "wall_s": round(r.wall, 1)}
-        if not r.ok:
-            out[name]["counterexample_input"] = r.printed[:3] or ["see " + str(wd / "MC_Builtins.out")]
+    tlen = ctx.pick(1, 2) if size == 256 else 1
+    wd = ctx.stage("mc_table", FAMS)
+    invs = ["TableOnlyWS", "TableTrim"]
+    rig.write_cfg(wd / "MC_Builtins.cfg", constants={"Deep": False, "Part": "table", "TableSize": size or 256, "TableLen": tlen}, invariants=invs)
+    r = ctx.tlc(wd, "MC_Builtins", workers=4, timeout=600, extra=["-continue"])
+    if not r.ok and not r.invariant_violated:
+        raise rig.Infra(f"table model run failed: {wd}/MC_Builtins.out\n" + rig.tail(r.out, 25))
+    cx = sorted(set(r.printed))
+    def of(model, sz):
+        return [c for c in cx if c.startswith('<<"%s model", %d,' % (model, sz))]
+    out = {"table_size_in_source": size, "max_len": tlen, "states": r.distinct, "wall_s": round(r.wall, 1),
+           "format": "<<model, table size, input bytes, model result>>"}
+    for sz in sorted({size or 256, 256}):
+        out["size_%d" % sz] = {
+            "onlyJSONWhitespace_agrees_with_reference": not of("onlyJSONWhitespace", sz),
+            "onlyJSONWhitespace_counterexamples": of("onlyJSONWhitespace", sz)[:4],
+            "trimJSONSpace_never_runs_off": not of("trimJSONSpace", sz),
+            "trimJSONSpace_counterexamples": of("trimJSONSpace", sz)[:6],
+        }
     return out
 
 
 def run(ctx, replay_ids=None):
     if replay_ids is None:
         ctx.cov["model_table"] = table_model(ctx)
-        bad = [k for k, v in ctx.cov["model_table"].items() if isinstance(v, dict) and not v["holds"]]
-        if bad:
-            ctx.cov["model_counterexample_table"] = ("the transcribed white-space table violates its reference in: " + ", ".join(bad) +
-                                                     " (diagnostic; the verdict is decided on the real code)")
+        mt = ctx.cov["model_table"]
+        asw = mt.get("size_%d" % (mt["table_size_in_source"] or 256), {})
+        if not asw.get("onlyJSONWhitespace_agrees_with_reference", True) or not asw.get("trimJSONSpace_never_runs_off", True):
+            ctx.cov["model_counterexample_table"] = ("the transcribed white-space table / trimJSONSpace loop leaves the reference for the inputs "
+                                                     "listed in model_table (diagnostic; the verdict is decided on the real code)")
+    # the case export is a TLC run of its own (see the comment at CasesIn in MC_Builtins.tla); rig.functional's model-check
+    # run then walks over the exported file, which it also hands to the driver
+    wd = ctx.stage("mc", FAMS)
+    rig.write_cfg(wd / "MC_Builtins_export.cfg", constants={"Deep": not ctx.quick, "Part": "export", "TableSize": 256, "TableLen": 0})
+    r = ctx.tlc(wd, "MC_Builtins", cfg="MC_Builtins_export.cfg", workers=2, timeout=900, must_pass=True)
+    ctx.cov["export_wall_s"] = round(r.wall, 1)
     rc = rig.functional(
         ctx, fams=FAMS, mc_module="MC_Builtins",
         mc_consts={"Deep": not ctx.quick, "Part": "main", "TableSize": 256, "TableLen": 0},
         mc_invs=["ImplMeetsRef", "RefConsistent"],
         sub="c25", trace_module="Trace_Builtins", trace_consts={"KeepPerSig": 3},
-        extra=ctx.pick(12000, 150000),
+        extra=ctx.pick(8000, 150000),
         case_from_obs=lambda o: {"id": o["id"], "fn": o["fn"], "args": o["args"]},
         corrupt=corrupt,
         nontrivial=nontrivial,
@@ -92,7 +114,7 @@ def run(ctx, replay_ids=None):
     ctx.cov["functions"] = functions(ctx)
     ctx.cov["bounds"] = {"deep": not ctx.quick, "alphabets": "see spec/builtins/MC_Builtins.tla",
                          "lengths": "strings <= 3 (quick) / <= 4 (thorough) over 3-17 symbol alphabets; all 256 single bytes; thorough: all 65536 byte pairs for QueryEscape and MarshalJSONIndent prefix",
-                         "random_extra": ctx.pick(12000, 150000)}
+                         "random_extra": ctx.pick(8000, 150000)}
     ctx.cov["not_covered"] = META["level_note"].split("Those calls")[0].replace("PARTIAL. ", "")
     ctx.assumptions.append("int is 64 bits wide on the machine running the check (ParseInt range, Abs special case)")
     return rc
